@@ -3,7 +3,7 @@
    export agree).  Each case of [step_spec] is a corollary of the owning area's theorem. *)
 From BigNum Require Import Base BaseLemmas AddSub SpecAddSub AddSubProofs ShiftCore Div SpecDiv
   DivProofs DivProofsCore DivProofsApi DivProofsSign Bits SpecBits BitsLemmas BitsProofsU BitsProofsTC
-  BitsProofsI BitsProofsSNB BitDigits Iter Bytes SpecBytes BytesLemmas BytesProofs SignedBytesProofs
+  BitsProofsI BitsProofsSNB BitDigits SrcLit Iter IterProofs Bytes SpecBytes BytesLemmas BytesProofs SignedBytesProofs
   Serde SerdeProofs Sign SpecSign SignProofs FormsAddSubLeaves
   Mul MulProofs PgrLoop PgrLoopProofs Pow SpecPow PowProofs Gcd SpecGcd GcdProofs GcdProofs2
   Roots SpecRoots RootsMath RootsProofs Radix RadixText RadixKernels RadixApi SpecRadix RadixProofs RadixProofs3 RadixInst
@@ -13,7 +13,8 @@ Open Scope Z_scope.
 (** * Vocabulary *)
 Definition hist_ok (P : hist_params) : bool :=
   addsub_ok (hp_as P) && div_ok (hp_div P) && bits_ok (hp_bits P) &&
-  mul_ok (hp_mul P) && pow_ok (hp_pow P) && gcd_ok (hp_gcd P) && roots_ok (hp_roots P) && radix_ok (hp_radix P).
+  mul_ok (hp_mul P) && pow_ok (hp_pow P) && gcd_ok (hp_gcd P) && roots_ok (hp_roots P) && radix_ok (hp_radix P) &&
+  iter_ok (hp_iter P).
 
 (** What the operations that MULTIPLY (`*=`, pow, cbrt, nth_root, lcm) and the text of values of
     64 digits and more rest on: the two statements of property C02 (area `mul`, not yet proved
@@ -60,11 +61,15 @@ Lemma hist_ok_inv P : hist_ok P = true ->
   mul_ok (hp_mul P) = true /\ pow_ok (hp_pow P) = true /\ gcd_ok (hp_gcd P) = true /\
   roots_ok (hp_roots P) = true /\ radix_ok (hp_radix P) = true.
 Proof.
-  unfold hist_ok. intros H.
+  unfold hist_ok. intros H. apply andb_prop in H as [H _].
   apply andb_prop in H as [H H8]. apply andb_prop in H as [H H7]. apply andb_prop in H as [H H6].
   apply andb_prop in H as [H H5]. apply andb_prop in H as [H H4]. apply andb_prop in H as [H H3].
   apply andb_prop in H as [H1 H2]. repeat split; assumption.
 Qed.
+
+(** the conditions of the areas whose parameters were added later (iter, ...) *)
+Lemma hist_ok_inv2 P : hist_ok P = true -> iter_ok (hp_iter P) = true.
+Proof. unfold hist_ok. intros H. apply andb_prop in H as [_ H]. exact H. Qed.
 
 (** ** consequences of the two multiplication statements *)
 Section MulFacts.
@@ -767,7 +772,7 @@ Section Exports.
     - assert (W : wf d) by apply C.
       destruct e; cbn [export_of sexport]; cbn in Hin;
         try (exfalso; intuition discriminate).
-      + apply uto_u32_digits_spec; auto.
+      + apply uto_u32_digits_spec; auto. apply (hist_ok_inv2 P HP).
       + rewrite uto_u64_digits_spec by auto. reflexivity.
       + apply uto_bytes_le_spec; auto.
       + apply uto_bytes_be_spec; auto.
@@ -777,7 +782,7 @@ Section Exports.
       + apply inst_to_str_radix; auto. apply (text_ok_small_or_umul (OU d)). auto.
     - destruct e; cbn [export_of sexport]; cbn in Hin;
         try (exfalso; intuition discriminate).
-      + rewrite ito_u32_digits_spec by auto. reflexivity.
+      + rewrite ito_u32_digits_spec by (auto; apply (hist_ok_inv2 P HP)). reflexivity.
       + rewrite ito_u64_digits_spec by auto. reflexivity.
       + rewrite ito_bytes_le_spec by auto. reflexivity.
       + rewrite ito_bytes_be_spec by auto. reflexivity.
